@@ -128,6 +128,16 @@ Check(r, idx) ==
         \* entry had expired is not disturbed: the value it returned is in the cache, unless a LOADED value (>= 1000) was reported removed.
         deadQuiet == r.sc.dead = 1 /\ (\A w \in wcalls : w.op = "sweep") /\ r.sc.inloader = <<>> /\ ~\E x \in exits : x.err \in {"nf", "nfw"}
         droppedBySweep == {e \in posts : e.op = "Get" /\ e.err = "miss" /\ ~\E a \in aevs : a.seq < e.seq /\ a.v >= 1000}
+        \* C11 "swaps atomically or not at all" (C09): Reload(key, old) produces the successor of the value it was HANDED.  If the key was
+        \* rewritten after that value was read - also before the executor got round to the task, when no in-flight record exists yet that the
+        \* write could clear - the result is not stored: the value a reload's installation replaces (the Replacement event raised inside its
+        \* install computation) is the value the reload was handed (seeded C11k / C02k / C09i)
+        reloadofs == {e \in ev : e.t = "reloadof"}
+        handed(x) == LET c == {e \in reloadofs : e.g = x.g /\ e.k = x.k /\ e.seq < x.seq}
+                     IN IF c = {} THEN -1 ELSE (CHOOSE e \in c : \A m \in c : e.seq >= m.seq).v
+        swappedOther == {x \in exits : /\ x.op = "Reload" /\ x.err = "" /\ handed(x) # -1
+                                        /\ \E a \in aevs : /\ a.k = x.k /\ a.g = x.g /\ a.err = "Replacement"
+                                                            /\ a.seq > x.seq /\ a.seq < installSeq(x) /\ a.v # handed(x)}
         \* a Refresh whose successful result has been delivered while the cache still serves the replaced value (or nothing)
         notSwapped == {e \in posts : e.op = "Refresh" /\ ~removedBefore(e) /\ (e.err = "miss" \/ (r.sc.preload = 1 /\ e.v = 50))}
         \* C11 "reads of fresh entries trigger nothing": with the clock frozen after the preloaded entry became due, a value that a
@@ -137,6 +147,8 @@ Check(r, idx) ==
     (IF r.sc.stale = 1 /\ undisturbed /\ fromFresh # {} THEN <<F(idx, "C11.reload_triggered_by_fresh_entry", fromFresh)>> ELSE <<>>)
     \o (IF undisturbed /\ notCached # {} THEN <<F(idx, "C10.returned_value_not_cached", notCached)>> ELSE <<>>)
     \o (IF deadQuiet /\ droppedBySweep # {} THEN <<F(idx, "C10.load_dropped_by_sweep_of_expired_entry", droppedBySweep)>> ELSE <<>>)
+    \o (IF swappedOther # {} THEN <<F(idx, "C11.reload_replaced_a_value_it_was_not_handed", <<swappedOther, r.final>>)>>
+                              \o <<F(idx, "C09.reload_replaced_a_value_it_was_not_handed", <<swappedOther, r.final>>)>> ELSE <<>>)
     \o (IF undisturbed /\ notSwapped # {} THEN <<F(idx, "C11.result_delivered_before_swap", notSwapped)>> ELSE <<>>)
     \* C20: load successes plus failures equals the number of loader invocations (at quiescence, nothing hung, no scripted panic:
     \* a panicking reload on the executor is recovered by the harness's executor, not by the cache)
